@@ -134,6 +134,10 @@ func runE6(id string, start time.Time) int {
 			if err != nil {
 				// a -race binary exits 66 when races were reported, but only after the test function saved its partial;
 				// no partial means the shard died
+				if site := panicSite(h.ReadFile(filepath.Join(scratch, fmt.Sprintf("shard%d.out", s)))); site != "" {
+					total.Violation("C18 | crash | "+site, "go-task crashed while running a concurrent workload", map[string]string{"crash.log": h.Truncate(h.ReadFile(filepath.Join(scratch, fmt.Sprintf("shard%d.out", s))), 20000)})
+					return
+				}
 				total.Inconc(fmt.Sprintf("shard %d produced no result (%v): %s", s, err, h.Truncate(tailOf(filepath.Join(scratch, fmt.Sprintf("shard%d.out", s))), 800)))
 				return
 			}
